@@ -129,6 +129,7 @@ type pool struct {
 	deaths  int
 	capped  bool
 	workers int
+	isoDeadline time.Time
 }
 
 type tail struct {
@@ -171,6 +172,12 @@ func (w *workerEnd) external() bool {
 // runWorker starts one worker process over a shard file and collects what it reports.
 func (p *pool) runWorker(tag, shardPath string, skip int, isolated bool) *workerEnd {
 	we := &workerEnd{current: -1, results: map[int]*Result{}}
+	isExpired := p.r.Expired
+	if isolated {
+		// re-examining a suspect alone is only needed when something was flagged; it has an allowance of its own
+		// beyond the run's deadline, so that a flagged case is neither dropped nor reported unconfirmed
+		isExpired = p.isoExpired
+	}
 	scratch := filepath.Join(hx.Scratch(), tag)
 	_ = os.MkdirAll(scratch, 0o755)
 	defer os.RemoveAll(scratch)
@@ -209,7 +216,7 @@ func (p *pool) runWorker(tag, shardPath string, skip int, isolated bool) *worker
 				lastLine.Lock()
 				idle := time.Since(last)
 				lastLine.Unlock()
-				if p.r.Expired() {
+				if isExpired() {
 					expired.Store(true)
 					_ = cmd.Process.Kill()
 					return
@@ -225,7 +232,7 @@ func (p *pool) runWorker(tag, shardPath string, skip int, isolated bool) *worker
 	sc := bufio.NewScanner(stdout)
 	sc.Buffer(make([]byte, 1<<20), 64<<20)
 	for sc.Scan() {
-		if p.r.Expired() {
+		if isExpired() {
 			expired.Store(true)
 			_ = cmd.Process.Kill()
 			break
@@ -263,6 +270,11 @@ func (p *pool) runWorker(tag, shardPath string, skip int, isolated bool) *worker
 }
 
 var isoSeq atomic.Int64
+
+// isoExpired: the allowance of isolated re-runs ends isoAllowance (stretched under load) after the run's own deadline.
+func (p *pool) isoExpired() bool {
+	return time.Now().After(p.isoDeadline)
+}
 
 // isolate runs exactly one case in a fresh worker process that waits for stray goroutines before it reports.
 func (p *pool) isolate(i int) *workerEnd {
@@ -426,7 +438,7 @@ func (p *pool) confirmAllocations() {
 			go func(i int) {
 				defer wg.Done()
 				defer func() { <-sem }()
-				if p.r.Expired() {
+				if p.isoExpired() {
 					return
 				}
 				iso := p.isolate(i)
@@ -683,15 +695,19 @@ func main() {
 		"allocation ceiling: runtime.MemStats.TotalAlloc delta of one call <= 256 MiB for inputs <= 64 KiB, measured in single-threaded workers; a worker killed by the runtime for memory (RLIMIT_AS 8 GiB) counts as runaway allocation",
 		"matrix: extended attribute (none / string / COSE integer label, critical or not) x presented artifact (signed / another one) x UserMetadata (none / satisfied / unsatisfied) are crossed with every other dimension under the digest reference for the signatures that parse (jws, cose); quick crosses them with one revocation option, thorough with all three; the other signature kinds and references keep the default of these three",
 		"one verifier instance per configuration and worker serves all cells dealt to that worker (calls after other calls on the same instance); reader-seam: notation.VerifyBlob must give the verdict of a plain reader however the caller's reader delivers the same bytes, and must not accept when the reader fails after half of the blob",
-		"the signature envelopes carry no RFC 3161 timestamp; COSE envelopes get the byte neighbourhood only",
+		"timestamp product (its own family of matrix cells): construction x revocation option x timestamping revocation validator (default / supplied) x level x tsa trust store in the statement x verifyTimestamp x countersignature (none / valid / unrelated TSA / wrong imprint / garbage; forged by lib/tsa) x format x entry point",
+		"oversized plugin output: 'never runaway allocation' is judged relatively for outputs of 160 MiB and 480 MiB (valid answer followed by blanks): at most half of the additional 320 MiB may turn up as additional allocation of the call; the library's own cap is not assumed",
+		"the mutated envelopes of the byte / node families carry no RFC 3161 timestamp; COSE envelopes get the byte neighbourhood only",
 		"a static plugin cannot produce a valid raw signature (the signed bytes contain the signing time): generate-signature outputs are exercised up to the library's own verification of the result",
 	}
 	var cases []Case
 	p := &pool{r: r}
 	if r.Thorough() {
 		r.SetDeadline(10 * time.Minute)
+		p.isoDeadline = time.Now().Add(hx.Budget(15 * time.Minute))
 	} else {
 		r.SetDeadline(35 * time.Second)
+		p.isoDeadline = time.Now().Add(hx.Budget(35*time.Second) + hx.Budget(3*time.Minute))
 	}
 	if r.Replay != "" {
 		var rc replayCase
@@ -714,6 +730,8 @@ func main() {
 		cases = append(cases, documentCases(w, r.Thorough())...)
 		cases = append(cases, layoutCases(w, r.Thorough())...)
 		cases = append(cases, pluginCases(w, r.Thorough())...)
+		cases = append(cases, oversizedPluginCases()...)
+		cases = append(cases, timestampCases()...)
 		// the matrix last, its originally stated product before the three extra dimensions: when the internal
 		// deadline stops a run on a loaded machine, what is cut is the tail of the largest family, not whole families
 		var wide []Case
